@@ -79,7 +79,9 @@ def one_script(ctx, r, depth, big=0):
                                   prob or gx.get("err", "") [:200] or "%s exits %s: %s" % (rw["argv"][1], rr["exit"], rr["stderr"].strip()[:200]), {"trace": trace}); return
                 if any(not oracles.task_of(gx["graph"], t["id"]) for t in g1["graph"]["tasks"]):
                     ctx.violation("C03 items lost by the mutation after %s" % fault, "items visible after the crash disappeared with the %s that followed" % rw["argv"][1], {"trace": trace}); return
-                if rw["argv"][1] == "compact" and crash.timeless(gx["graph"]) != crash.timeless(g1["graph"]):
+                # (a write cut inside a batch may have left half a command — a claim line without its state line: C03 allows that, it is not a state
+                #  any command sequence produces, and what `compact` makes of it is not this property's business: compare only CLI-reachable states)
+                if rw["argv"][1] == "compact" and not oracles.inv06(g1["graph"]) and crash.timeless(gx["graph"]) != crash.timeless(g1["graph"]):
                     ctx.violation("C03 compact after %s changed what the store shows" % fault, str(fndiff.first_difference(crash.timeless(g1["graph"]), crash.timeless(gx["graph"])))[:300], {"trace": trace}); return
                 g1 = gx
             nxt = {"argv": ["--json", "new", "task"], "stdin": json.dumps({"title": "after crash %d" % d}), "env": {"VERIF_RAND": str(r.next() % (1 << 40))}}
